@@ -54,6 +54,19 @@ Section Sim.
     destruct (run step1 s1' h) as [a1 b1]. destruct (run step2 s2' h) as [a2 b2].
     cbn [snd] in *. now rewrite IH.
   Qed.
+
+  Lemma sim_run_R : forall h s1 s2, R s1 s2 -> Forall ok h ->
+    R (fst (run step1 s1 h)) (fst (run step2 s2 h)).
+  Proof.
+    induction h as [|o h IH]; intros s1 s2 HR Hok; [exact HR|].
+    inversion Hok as [|? ? Ho Hh]; subst.
+    destruct (sim s1 s2 o HR Ho) as [E HR'].
+    cbn [run].
+    destruct (step1 s1 o) as [s1' r1]. destruct (step2 s2 o) as [s2' r2].
+    cbn [fst snd] in *. specialize (IH s1' s2' HR' Hh).
+    destruct (run step1 s1' h) as [a1 b1]. destruct (run step2 s2' h) as [a2 b2].
+    exact IH.
+  Qed.
 End Sim.
 
 Section WithBlockSize.
